@@ -191,7 +191,7 @@ def run(ctx):
               "<< <<3, 2, <<%s,%s,%s>> >> >> }" % (sc(.75), sc(.25), sc(.5), sc(.25), sc(.25), sc(.5), sc(.5),
                                                  sc(.25), sc(.25), sc(.5)))
     cases = []
-    for dtv, nsteps in ((0.5, 3), (0.25, 2)) if quick else ((0.5, 3), (0.25, 3), (0.5, 2)):
+    for dtv, nsteps in ((0.5, 3), (0.25, 2)) if quick else ((0.5, 3), (0.25, 2), (0.5, 2), (1.0, 3)):
         r = ctx.tlc("MeanField", CFG, label="dt=%s, %d steps" % (dtv, nsteps), workers=4,
                     constants={"SC": str(SC), "DtN": sc(dtv), "T0Set": "{0,%s,%s}" % (sc(1), sc(-0.5)),
                                "NSteps": str(nsteps), "CoefSet": coefset,
